@@ -124,6 +124,15 @@ def run(F, tier, res):
         return res
     P, D = parsers[0], printers[0]
     pt = parser_table(F, P)
+    # attribute words may be recognised in local helpers the parser calls with the word (`set_text_attribute(&mut style, word)`)
+    word_helpers = []
+    for _, c_ in F.calls(P):
+        q_ = callee_of(c_) if callee_of(c_) in F.fn_bodies else (c_.get('resolved') or '')
+        if q_ in F.fn_bodies and q_ != P and any(str(w_[1][-1][1]).startswith('is_') for w_ in Ru.field_writes(F, q_, None, None) if w_[1]):
+            word_helpers.append(q_)
+    for q_ in sorted(set(word_helpers)):
+        for w_, eff_ in parser_table(F, q_).items():
+            pt.setdefault(w_, set()).update(eff_)
     dt = printer_table(F, D)
     field_words = {}
     for w, eff in pt.items():
@@ -175,6 +184,17 @@ def run(F, tier, res):
     for h in heads:
         fwd = reach(S_, S_.get(h, []))
         loop |= {b for b in fwd if h in reach(S_, S_.get(b, []))}
+    helper_writes = {}
+    for q_ in sorted(set(word_helpers)):
+        if not any(callee_of(c_) == q_ or (c_.get('resolved') or '') == q_ for bi_, c_ in F.calls(P) if bi_ in loop):
+            continue
+        for blk_ in F.blocks(q_):
+            if blk_['cleanup']:
+                continue
+            for st_ in blk_['s']:
+                if st_[0] == 'assign' and st_[1]['p'] and st_[1]['p'][-1][0] == 'field' and str(st_[1]['p'][-1][3]).startswith('is_') and 'Style' in str(st_[1]['p'][-1][2]):
+                    ct_ = st_[2][0] == 'use' and 'const' in st_[2][1] and st_[2][1]['const'].get('repr') in ('true', 'const true')
+                    helper_writes.setdefault(st_[1]['p'][-1][3], []).append(ct_)
     writes = {}      # flag key -> [(bb, is_const_true)]
     bool_writes = {}  # any bool local -> [(bb, is_const_true)] (to recognise the single-shot slot guards `seen_*`)
     for bi in sorted(loop):
@@ -222,6 +242,14 @@ def run(F, tier, res):
             tt, ft = ft, tt
         if ft is not None and any(wb in reach(S_, ft) for wb, _ in bool_writes[L]):
             slot_edges.append((sb, ft))
+    for nm_, cts_ in sorted(helper_writes.items()):
+        for ct_ in cts_:
+            no_ += 1
+            if ct_:
+                oko_ += 1
+            else:
+                res.violate('ORDER', 'fn=%s;flag=%s;helper' % (P, nm_), 'a helper called for every word of a style string assigns the attribute flag `%s` something other than the constant true: '
+                            'the meaning of a style string then depends on the order of its words' % nm_, where=F.bodies[P]['mir']['span']['at'])
     for nm, ws in sorted(writes.items()):
         for (bi, ct) in ws:
             no_ += 1
